@@ -836,6 +836,17 @@ func (ev *evalEnv) call(e *Expr) tv {
 			parts = append(parts, "(* "+pow2(int64(8*k))+" "+b+")")
 		}
 		return mathInt("(+ " + strings.Join(parts, " ") + ")")
+	case "heap":
+		// heap(Type.field, ref): the value of a scalar field of an arbitrary object (for heap-wide invariants)
+		if e.A[0].Op != "sel" || e.A[0].A[0].Op != "ident" || ev.pkg == nil {
+			ev.fail("heap(Type.field, ref)")
+		}
+		o := ev.pkg.Scope().Lookup(e.A[0].A[0].Name)
+		if o == nil {
+			ev.fail("unknown type %s", e.A[0].A[0].Name)
+		}
+		ref := ev.evalInt(e.A[1])
+		return ev.selField(tv{v: &Val{K: KPtr, T: []string{ref}}, t: types.NewPointer(o.Type())}, e.A[0].Name)
 	case "ghost":
 		if e.A[0].Op != "ident" {
 			ev.fail("ghost(name)")
